@@ -313,6 +313,80 @@ func (o *opRec) String() string {
 	return s
 }
 
+// enc renders the call with what it observed for the Lean judge (drv_c17 `lin` lines): kind,call,ret,args...
+func (o *opRec) enc() string {
+	hexs := func(x string) string {
+		if x == "" {
+			return "-"
+		}
+		return hex.EncodeToString([]byte(x))
+	}
+	bit := func(b bool) string {
+		if b {
+			return "1"
+		}
+		return "0"
+	}
+	p := fmt.Sprintf("%s,%d,%d", o.kind, o.call, o.ret)
+	switch o.kind {
+	case "reg":
+		p += fmt.Sprintf(",%d,%d", o.t, o.prio)
+		for _, n := range o.names {
+			p += "," + hexs(n)
+		}
+	case "unreg":
+		p += fmt.Sprintf(",%d", o.t)
+	case "notify":
+		l := make([]string, len(o.handles))
+		for i, h := range o.handles {
+			l[i] = fmt.Sprintf("%d:%s", h.t, hexs(h.name))
+		}
+		hs := "-"
+		if len(l) > 0 {
+			hs = strings.Join(l, "/")
+		}
+		p += "," + hexs(o.names[0]) + "," + bit(o.badData) + "," + hs
+	case "start", "end":
+		l := make([]string, len(o.batches))
+		for i, b := range o.batches {
+			l[i] = fmt.Sprintf("%d:%s", b.t, bit(b.start))
+		}
+		bs := "-"
+		if len(l) > 0 {
+			bs = strings.Join(l, "/")
+		}
+		p += "," + bs
+	case "enable":
+		p += "," + bit(o.flag)
+	case "enabled":
+		p += "," + bit(o.boolRes)
+	case "level":
+		p += fmt.Sprintf(",%d", o.intRes)
+	case "copyout":
+		p += "," + hexs(o.dumpRes)
+	}
+	return p
+}
+
+// encRound renders one round (the programs of all goroutines and the white-box dump of the registry afterwards).
+func encRound(progs [][]*opRec, final string) string {
+	var sb strings.Builder
+	if final == "" {
+		sb.WriteString("-")
+	} else {
+		sb.WriteString(hex.EncodeToString([]byte(final)))
+	}
+	for k, p := range progs {
+		if k > 0 {
+			sb.WriteString(" |")
+		}
+		for _, o := range p {
+			sb.WriteString(" " + o.enc())
+		}
+	}
+	return sb.String()
+}
+
 type raceWorld struct {
 	cur     sync.Map // goroutine id -> *opRec: the call that goroutine is inside
 	stray   atomic.Int64
@@ -619,6 +693,84 @@ func (s *raceSys) linearize(starts []*ref, progs [][]*opRec, final string) []*re
 	return out
 }
 
+var crossDeadlocks int // lines of this process on which crossMerge dead-locked
+
+// crossMerge: x.RegisterFromNotifier(y) and y.RegisterFromNotifier(x) in tight loops from two goroutines while a third
+// registers and notifies on both; afterwards (one more merge each way, sequentially) both registries must hold the same
+// registrations.  "" = passed.
+func (s *raceSys) crossMerge() string {
+	h := func(error) {}
+	x, y := notifier.New(h), notifier.New(h)
+	x.Register(s.ts[0], 1, "a", "x.only")
+	y.Register(s.ts[1], 2, "b", "y.only")
+	y.Register(s.ts[4], 0, "a.b")
+	const iters = 1000
+	if crossDeadlocks >= 2 { // every further line would cost another 5 s
+		return "FAIL deadlock: concurrent RegisterFromNotifier calls in opposite directions (two earlier lines dead-locked; not run again)"
+	}
+	done := make(chan struct{}, 3)
+	var progress atomic.Int64
+	go func() {
+		for i := 0; i < iters; i++ {
+			x.RegisterFromNotifier(y)
+			progress.Add(1)
+		}
+		done <- struct{}{}
+	}()
+	go func() {
+		for i := 0; i < iters; i++ {
+			y.RegisterFromNotifier(x)
+			progress.Add(1)
+		}
+		done <- struct{}{}
+	}()
+	go func() {
+		for i := 0; i < iters; i++ {
+			x.Register(s.ts[5], 7, "c")
+			_ = y.Enabled()
+			y.Register(s.ts[5], 7, "d")
+			_ = x.BatchLevel()
+			progress.Add(1)
+		}
+		done <- struct{}{}
+	}()
+	// watchdog by progress, not by wall time (the machine may be heavily loaded): dead-locked = no goroutine completed a
+	// single call during 3 s
+	tick := time.NewTicker(500 * time.Millisecond)
+	defer tick.Stop()
+	last, still := int64(-1), 0
+	for k := 0; k < 3; {
+		select {
+		case <-done:
+			k++
+		case <-tick.C:
+			if p := progress.Load(); p == last {
+				still++
+			} else {
+				last, still = p, 0
+			}
+			if still >= 6 {
+				crossDeadlocks++
+				return "FAIL deadlock: concurrent RegisterFromNotifier calls in opposite directions made no progress for 3s"
+			}
+		}
+	}
+	x.RegisterFromNotifier(y)
+	y.RegisterFromNotifier(x)
+	if s.wb {
+		dx, dy := wbDump(x, s.idOf), wbDump(y, s.idOf)
+		cut := func(d string) string { return d[:strings.Index(d, " C[")] }
+		if cut(dx) != cut(dy) {
+			return fmt.Sprintf("FAIL after merging both ways the registries differ: %s vs %s", cut(dx), cut(dy))
+		}
+		want := "P[612e62=4:0 61=0:1 62=1:2 63=5:7 64=5:7 782e6f6e6c79=0:1 792e6f6e6c79=1:2]"
+		if !strings.HasPrefix(dx, want) {
+			return fmt.Sprintf("FAIL after merging both ways: %s, expected %s ...", cut(dx), want)
+		}
+	}
+	return ""
+}
+
 func (raceArea) Run(line string) string {
 	f := strings.Fields(line)
 	if len(f) != 4 || f[0] != "stress" {
@@ -643,6 +795,7 @@ func raceRun(seed uint64, g, rounds int) (out string) {
 	cands := []*ref{newRef()} // the reference states the real registry may be in (exactly one with the white-box view)
 	var escaped atomic.Int64
 	overlaps := 0
+	var linlog []string // every judged round, for the second judge (the Lean model itself: drv_c17 `lin`)
 	// ---- linearizability rounds
 	for round := 0; round < rounds; round++ {
 		if got := wbDump(s.n, s.idOf); s.wb && got != cands[0].dump(true) {
@@ -668,6 +821,7 @@ func raceRun(seed uint64, g, rounds int) (out string) {
 				}
 				cands = keep
 			}
+			linlog = append(linlog, encRound([][]*opRec{fix}, wbDump(s.n, s.idOf)))
 		}
 		ng := g
 		if batchRound {
@@ -730,6 +884,13 @@ func raceRun(seed uint64, g, rounds int) (out string) {
 			}
 		}
 		cands = next // with the white-box view: the one state equal to the real registry
+		linlog = append(linlog, encRound(progs, final))
+	}
+	// ---- cross merges: two notifiers merged into each other concurrently, a third goroutine notifying
+	// (C17.merge_never_deadlocks: the code holds one lock at a time; taking the destination's lock inside the source's
+	// bracket dead-locks here within a few iterations -- reported after 5 s, not after the 60 s of the whole line)
+	if msg := s.crossMerge(); msg != "" {
+		return msg
 	}
 	// ---- free-running phase: StartBatch/EndBatch in any order from all goroutines (no Reset, no SetEnabled); every
 	// outermost start broadcasts true to a snapshot and the end that brings the level back to 0 broadcasts false to the
@@ -792,5 +953,5 @@ func raceRun(seed uint64, g, rounds int) (out string) {
 	if a, b := s.w.recs.Load(), s.w.booms.Load(); a != b {
 		return fmt.Sprintf("FAIL %d panics but %d recovery reports", b, a)
 	}
-	return fmt.Sprintf("ok rounds=%d overlapping-pairs=%d", rounds, overlaps)
+	return fmt.Sprintf("ok rounds=%d overlapping-pairs=%d LIN %s", rounds, overlaps, strings.Join(linlog, ";"))
 }
